@@ -25,6 +25,15 @@ Proof.
   destruct localhost_maps_idna, localhost_checks_unspecified; vm_compute; reflexivity.
 Qed.
 
+(* trailing dot of a fully qualified name *)
+Lemma gap_trailing_dot :
+  localhost_strips_dot = false ->
+  target_is_local (fun h => h) [] (b "localhost.") = true /\ is_localhost (fun h => h) [] (b "localhost.") = false.
+Proof.
+  intro H. unfold is_localhost. rewrite H. split; [vm_compute; reflexivity|].
+  destruct localhost_maps_idna, localhost_strips_zone, localhost_checks_unspecified; vm_compute; reflexivity.
+Qed.
+
 (* F1: writeErrorResponse runs the hop-by-hop response modifier over the proxy's own 407 *)
 Lemma gap_challenge_stripped cfg :
   error_response_keeps_challenge = false ->
